@@ -693,6 +693,11 @@ type batchWorkerArgs struct {
 }
 
 func (sf *file) prefetchEntireFile(entireCacheID string, chunks []chunkData, totalSize int64, bufferSize int64, workerCount int) error {
+	if workerCount <= 0 {
+		// merge_worker_count is not validated by the configuration; without any worker
+		// nothing fills the merge buffer and a file of zeros would be committed.
+		workerCount = 1
+	}
 
 	w, err := sf.gr.cache.Add(entireCacheID)
 	if err != nil {
